@@ -317,36 +317,42 @@ impl<T, Codec, const BUFFER: usize, const MAX_ITEM_SIZE: usize> Receiver<T, Code
             return Ok(0);
         }
 
-        let mut send_req_buf = Vec::with_capacity(limit);
-        let n = self.inner.as_mut().unwrap().rx.recv_many(&mut send_req_buf, limit).await;
+        loop {
+            let mut send_req_buf = Vec::with_capacity(limit);
+            let n = self.inner.as_mut().unwrap().rx.recv_many(&mut send_req_buf, limit).await;
 
-        if n == 0 {
-            match self.take_error() {
-                Some(err) => return Err(err),
-                None => return Ok(0),
-            }
-        }
-
-        let mut p = 0;
-        for send_req in send_req_buf {
-            match send_req.ack() {
-                Ok(value_opt) => {
-                    buffer.push(value_opt);
-                    p += 1;
+            if n == 0 {
+                match self.take_error() {
+                    Some(err) => return Err(err),
+                    None => return Ok(0),
                 }
-                Err(err) => {
-                    if err.is_final() {
-                        if self.final_err.is_none() {
-                            self.final_err = Some(err);
+            }
+
+            let mut p = 0;
+            for send_req in send_req_buf {
+                match send_req.ack() {
+                    Ok(value_opt) => {
+                        buffer.push(value_opt);
+                        p += 1;
+                    }
+                    Err(err) => {
+                        if err.is_final() {
+                            if self.final_err.is_none() {
+                                self.final_err = Some(err);
+                            }
+                        } else {
+                            return Err(err);
                         }
-                    } else {
-                        return Err(err);
                     }
                 }
             }
-        }
 
-        Ok(p)
+            // Zero means that the channel has been closed. When the batch consisted only of
+            // final errors that are held back, keep waiting for values or the real end.
+            if p > 0 {
+                return Ok(p);
+            }
+        }
     }
 
     /// Returns the number of values available for receiving.
